@@ -190,13 +190,13 @@ theorem toMapping_correct (σ : Leaves) (it : Iterable) (cols : Cols) (s : ExecS
     · rw [if_neg hk]
       simp only [hd]
       exact ⟨_, _, rfl, rfl, hpw, rfl⟩
-  | seq r => simp only [toMapping, iterateS_ok σ _ s rows hrows, hd]; exact ⟨_, _, rfl, rfl, hpw, rfl⟩
-  | leafRef o => simp only [toMapping, iterateS_ok σ _ s rows hrows, hd]; exact ⟨_, _, rfl, rfl, hpw, rfl⟩
-  | «calc» t tag e => simp only [toMapping, iterateS_ok σ _ s rows hrows, hd]; exact ⟨_, _, rfl, rfl, hpw, rfl⟩
-  | proj t c => simp only [toMapping, iterateS_ok σ _ s rows hrows, hd]; exact ⟨_, _, rfl, rfl, hpw, rfl⟩
-  | sel t p => simp only [toMapping, iterateS_ok σ _ s rows hrows, hd]; exact ⟨_, _, rfl, rfl, hpw, rfl⟩
-  | slice t x y => simp only [toMapping, iterateS_ok σ _ s rows hrows, hd]; exact ⟨_, _, rfl, rfl, hpw, rfl⟩
-  | chain x y => simp only [toMapping, iterateS_ok σ _ s rows hrows, hd]; exact ⟨_, _, rfl, rfl, hpw, rfl⟩
+  | seq r => simp only [toMapping, toMappingVia, iterateS_ok σ _ s rows hrows, hd]; exact ⟨_, _, rfl, rfl, hpw, rfl⟩
+  | leafRef o => simp only [toMapping, toMappingVia, iterateS_ok σ _ s rows hrows, hd]; exact ⟨_, _, rfl, rfl, hpw, rfl⟩
+  | «calc» t tag e => simp only [toMapping, toMappingVia, iterateS_ok σ _ s rows hrows, hd]; exact ⟨_, _, rfl, rfl, hpw, rfl⟩
+  | proj t c => simp only [toMapping, toMappingVia, iterateS_ok σ _ s rows hrows, hd]; exact ⟨_, _, rfl, rfl, hpw, rfl⟩
+  | sel t p => simp only [toMapping, toMappingVia, iterateS_ok σ _ s rows hrows, hd]; exact ⟨_, _, rfl, rfl, hpw, rfl⟩
+  | slice t x y => simp only [toMapping, toMappingVia, iterateS_ok σ _ s rows hrows, hd]; exact ⟨_, _, rfl, rfl, hpw, rfl⟩
+  | chain x y => simp only [toMapping, toMappingVia, iterateS_ok σ _ s rows hrows, hd]; exact ⟨_, _, rfl, rfl, hpw, rfl⟩
 
 /-! ### One step of `execute` -/
 
@@ -281,11 +281,11 @@ theorem materializedIt_correct (σ : Leaves) (it : Iterable) (s : ExecState) (ro
   | seq r => exact ⟨_, _, rfl, hrows, hit, rfl⟩
   | mapping k r => exact ⟨_, _, rfl, hrows, hit, rfl⟩
   | leafRef o => exact ⟨_, _, rfl, hrows, hit, rfl⟩
-  | «calc» t tag e => simp only [materializedIt, iterateS_ok σ _ s rows hrows]; exact ⟨_, _, rfl, rfl, trivial, rfl⟩
-  | proj t c => simp only [materializedIt, iterateS_ok σ _ s rows hrows]; exact ⟨_, _, rfl, rfl, trivial, rfl⟩
-  | sel t p => simp only [materializedIt, iterateS_ok σ _ s rows hrows]; exact ⟨_, _, rfl, rfl, trivial, rfl⟩
-  | slice t x y => simp only [materializedIt, iterateS_ok σ _ s rows hrows]; exact ⟨_, _, rfl, rfl, trivial, rfl⟩
-  | chain x y => simp only [materializedIt, iterateS_ok σ _ s rows hrows]; exact ⟨_, _, rfl, rfl, trivial, rfl⟩
+  | «calc» t tag e => simp only [materializedIt, materializeVia, iterateS_ok σ _ s rows hrows]; exact ⟨_, _, rfl, rfl, trivial, rfl⟩
+  | proj t c => simp only [materializedIt, materializeVia, iterateS_ok σ _ s rows hrows]; exact ⟨_, _, rfl, rfl, trivial, rfl⟩
+  | sel t p => simp only [materializedIt, materializeVia, iterateS_ok σ _ s rows hrows]; exact ⟨_, _, rfl, rfl, trivial, rfl⟩
+  | slice t x y => simp only [materializedIt, materializeVia, iterateS_ok σ _ s rows hrows]; exact ⟨_, _, rfl, rfl, trivial, rfl⟩
+  | chain x y => simp only [materializedIt, materializeVia, iterateS_ok σ _ s rows hrows]; exact ⟨_, _, rfl, rfl, trivial, rfl⟩
 
 theorem StoreOK.of_payloads_eq {σ : Leaves} {reg : Nat → Option (List Row)} {s s' : ExecState}
     (h : StoreOK σ reg s) (he : s'.payloads = s.payloads) : StoreOK σ reg s' := by
@@ -431,9 +431,10 @@ theorem exec_correct (σ : Leaves) (reg : Nat → Option (List Row)) :
     obtain ⟨it, s1, h1, h2, h3, h4⟩ :=
       exec_correct σ reg t self s hio hwf htr hkd hreg.2 hs (by simpa [Rel.engine] using he)
     obtain ⟨it', s2, g1, g2, g3, g4⟩ := materializedIt_correct σ it s1 (sem σ t) h2 h3
-    refine ⟨it', { s2 with payloads := (oid, it') :: s2.payloads }, ?_, by simpa [sem] using g2, g3, ?_⟩
+    refine ⟨it', { s2 with payloads := (oid, it') :: s2.payloads, evals := oid :: s2.evals }, ?_,
+      by simpa [sem] using g2, g3, ?_⟩
     · simp only [h1, g1]
-    · exact (h4.of_payloads_eq g4).cons oid it' (sem σ t) g3 hreg.1 g2
+    · exact StoreOK.of_payloads_eq ((h4.of_payloads_eq g4).cons oid it' (sem σ t) g3 hreg.1 g2) rfl
   | .transfer oid d t, self, s, hio, hwf, htr, hkd, hreg, hs, he => by
     rw [exec]
     refine exec_shortcuts σ reg _ self s he hwf htr hreg hs _ ?_
